@@ -186,3 +186,71 @@ func asBytes(v any) ([]byte, bool) {
 }
 
 var _ = bytes.Equal
+
+// W2 wraps a two-argument library routine that compares its arguments internally
+// (slices.Contains/Index/Equal/Compare, sort.SearchStrings, ...): one comparison event per
+// element pair the routine would look at, in order, up to the first match.
+func W2[A, B, R any](site int, kind string, f func(A, B) R, a A, b B) R {
+	if Tracing {
+		emit2(site, kind, any(a), any(b))
+	}
+	return f(a, b)
+}
+
+// W2R2 is W2 for routines with two results (slices.BinarySearch).
+func W2R2[A, B, R1, R2 any](site int, kind string, f func(A, B) (R1, R2), a A, b B) (R1, R2) {
+	if Tracing {
+		emit2(site, kind, any(a), any(b))
+	}
+	return f(a, b)
+}
+
+func emit2(site int, kind string, a, b any) {
+	switch x := a.(type) {
+	case []string:
+		switch y := b.(type) {
+		case string:
+			for _, e := range x {
+				cmpEvent(site, kind, len(e), len(y), firstMismatchS(e, y))
+				if e == y && kind != "sort.SearchStrings" && kind != "slices.BinarySearch" {
+					break
+				}
+			}
+		case []string:
+			for i := 0; i < len(x) && i < len(y); i++ {
+				cmpEvent(site, kind, len(x[i]), len(y[i]), firstMismatchS(x[i], y[i]))
+				if x[i] != y[i] {
+					break
+				}
+			}
+		}
+	case []byte:
+		if y, ok := b.([]byte); ok {
+			cmpEvent(site, kind, len(x), len(y), firstMismatch(x, y))
+		}
+	case string:
+		if y, ok := b.(string); ok {
+			cmpEvent(site, kind, len(x), len(y), firstMismatchS(x, y))
+		}
+	case [][]byte:
+		if y, ok := b.([]byte); ok {
+			for _, e := range x {
+				cmpEvent(site, kind, len(e), len(y), firstMismatch(e, y))
+			}
+		}
+	}
+}
+
+// SwitchS records the comparisons a `switch tag { case c1, c2, ... }` on strings performs:
+// cases are tried in order up to the first match.
+func SwitchS(site int, tag string, cases ...string) {
+	if !Tracing {
+		return
+	}
+	for _, c := range cases {
+		cmpEvent(site, "switch-string", len(tag), len(c), firstMismatchS(tag, c))
+		if c == tag {
+			return
+		}
+	}
+}
